@@ -159,7 +159,7 @@ pub struct BaseTables {
 }
 
 pub fn base_tables() -> BaseTables {
-    use write_fonts::tables::{cmap::Cmap, head::Head, loca::Loca, maxp::Maxp};
+    use write_fonts::tables::{cmap::Cmap, head::Head, maxp::Maxp};
     let mappings: Vec<(u32, u32)> = vec![(A, 1), (B, 2), (C, 3), (D_, 4), (E, 5), (A2, 1)];
     let cmap = Cmap::from_mappings(
         mappings
@@ -185,11 +185,8 @@ pub fn base_tables() -> BaseTables {
         }
         loca.push(glyf.len() as u32);
     }
-    let loca = Loca::new(loca);
-    let (loca_bytes, _) = {
-        let b = write_fonts::dump_table(&loca).unwrap();
-        (b, ())
-    };
+    // long loca, hand encoded (write-fonts' Loca::new would pick the short format on its own)
+    let loca_bytes: Vec<u8> = loca.iter().flat_map(|o| o.to_be_bytes()).collect();
     let tables = vec![
         (Tag::new(b"cmap"), write_fonts::dump_table(&cmap).unwrap()),
         (Tag::new(b"maxp"), write_fonts::dump_table(&maxp).unwrap()),
@@ -336,6 +333,8 @@ pub struct Local {
     pub nontrivial: HashSet<u64>,
     pub evals: u64,
     pub mono_pairs: u64,
+    pub ext_gk_rounds: u64,
+    pub ext_tk_rounds: u64,
 }
 
 pub struct Ctx<'a> {
@@ -350,6 +349,8 @@ impl Ctx<'_> {
         g.nontrivial.extend(l.nontrivial);
         g.evals += l.evals;
         g.mono_pairs += l.mono_pairs;
+        g.ext_gk_rounds += l.ext_gk_rounds;
+        g.ext_tk_rounds += l.ext_tk_rounds;
     }
 }
 
@@ -642,6 +643,11 @@ fn body(run: &Run, replay: Option<&Value>) {
     run.trans(l.evals);
     run.observe_many(&l.all, &l.nontrivial);
     run.count("monotonicity_pairs_checked", l.mono_pairs);
+    run.count("ext_successful_glyph_keyed_rounds", l.ext_gk_rounds);
+    run.count("ext_successful_table_keyed_rounds", l.ext_tk_rounds);
+    if run.violations() == 0 && (l.ext_gk_rounds == 0 || l.ext_tk_rounds == 0) {
+        run.machinery_error("extension search is vacuous: no successful glyph keyed or table keyed round");
+    }
 }
 
 fn replay_case(run: &Run, base: &BaseTables, case: &Value) {
@@ -873,7 +879,8 @@ fn spaces_f2(ctx: &Ctx, base: &BaseTables) {
         let full = &full;
         let second = &second;
         let (ch0, ch1) = (&ch0, &ch1);
-        let (defs, sds, pairs) = (&defs, &sds, &pairs);
+        // quick: the reduced definition list (5 of the 8 design spaces); thorough: all 240
+        let (defs, sds, pairs) = if thorough { (&defs, &sds, &pairs) } else { (&defs_r, &sds_r, &pairs_r) };
         par_for(n0 * ch0.len(), |k| {
             let mut l = Local::default();
             let (i0, c0) = (k / ch0.len(), k % ch0.len());
@@ -911,7 +918,8 @@ fn spaces_f2(ctx: &Ctx, base: &BaseTables) {
     );
     {
         let (e0s, e1s, e2s, c1, c2) = (&e0s, &e1s, &e2s, &c1, &c2);
-        let (defs_r, sds_r, pairs_r) = (&defs_r, &sds_r, &pairs_r);
+        // thorough: all 240 definitions; quick: the reduced list
+        let (defs_r, sds_r, pairs_r) = if thorough { (&defs, &sds, &pairs) } else { (&defs_r, &sds_r, &pairs_r) };
         par_for(e0s.len() * e1s.len(), |k| {
             let mut l = Local::default();
             let (i0, i1) = (k / e1s.len(), k % e1s.len());
@@ -1086,6 +1094,7 @@ fn spaces_f1(ctx: &Ctx, base: &BaseTables) {
     run.bound("subset_pairs_f1", json!(pairs.len()));
     let fmaps = feature_maps();
     run.bound("f1_feature_maps", json!(fmaps.len()));
+    run.bound("f1_glyph_maps", json!(if thorough { "all maps gid first..6 -> {0,1,2,3} for first in {1,3,6}: 1024+64+1" } else { "first=1: 256 of 1024 (gid4 in {0, entry(gid1)}, gid5 in {0,3}); first=3: 64; first=6: 1" }));
     // glyph maps: gids first..6 -> entries {0..3}
     let mut configs: Vec<T1> = vec![];
     for first in [1u16, 3, 6] {
@@ -1093,8 +1102,8 @@ fn spaces_f1(ctx: &Ctx, base: &BaseTables) {
         let total = 4u32.pow(n);
         for code in 0..total {
             let entry_index: Vec<u16> = (0..n).map(|k| ((code >> (2 * k)) & 3) as u16).collect();
-            // quick: glyph maps with at most 2 distinct non-zero targets beyond gid 3 are kept as is; the
-            // quick tier thins the 1024 maps of first=1 to those where gids 4,5 map to 0 or repeat gid 1
+            // the quick tier thins the 1024 maps of first=1 to those where gid 4 maps to 0 or to gid 1's
+            // entry and gid 5 maps to 0 or 3 (256 maps); thorough keeps all 1024
             if !thorough && first == 1 {
                 let (g1, g4, g5) = (entry_index[0], entry_index[3], entry_index[4]);
                 if !((g4 == 0 || g4 == g1) && (g5 == 0 || g5 == 3)) {
